@@ -66,6 +66,11 @@ def apply_op(ds, op, aux=None, args=None):
     if m == "momd":
         return getattr(spec, m)(**kw)
     if m == "stats":
+        if "names" in op:
+            kw["names"] = args.get("names", list(op["names"]))
+        if op.get("stats_kw"):
+            # dictionary form: {stat: kwargs}; the dictionary is the caller's object
+            return spec.stats(args.get("stats", {n: dict(op["stats_kw"].get(n, {})) for n in op["stats"]}), **kw)
         return spec.stats(args.get("stats", list(op["stats"])), **kw)
     if m == "split":
         return spec.split(**kw)
@@ -116,6 +121,8 @@ def gen_op(rng, recipe, pool="all"):
         groups += ["ptm123"] * 4 + ["ptm45", "bbox", "hp01"]
     if pool in ("all", "fit"):
         groups += ["fit"] * 2
+    if pool in ("all", "stats", "transform") and any(k == "site" for k, _ in recipe.get("dims", [])):
+        groups += ["sel"] * 2
     if not groups:
         groups = ["stat"] * 6 + ["stat_kw", "stats", "split", "scale"]
     g = rng.choice(groups)
@@ -124,6 +131,15 @@ def gen_op(rng, recipe, pool="all"):
 
     freqs = make_freq(nf, recipe.get("freq", {}))
     fmid = float(np.round(0.5 * (freqs[0] + freqs[-1]), 4))
+    if g == "sel":
+        from .data import site_coords
+
+        slon, slat = site_coords(recipe)
+        n = rng.randint(1, 3)
+        method = rng.choice(["idw", "nearest", "bbox"])
+        lons = [round(float(slon[rng.randrange(len(slon))]) + rng.choice([0.0, 0.3, -0.2]), 3) for _ in range(n)]
+        lats = [round(float(slat[rng.randrange(len(slat))]) + rng.choice([0.0, 0.25, -0.1]), 3) for _ in range(n)]
+        return {"m": "sel", "via": "ds", "lons": lons, "lats": lats, "kw": {"method": method, "tolerance": rng.choice([2.0, 10.0])}}
     if g == "stat":
         names = [n for n in SIMPLE_STATS if has_dir or n not in NEEDS_DIR]
         return {"m": rng.choice(names), "via": via}
@@ -157,7 +173,15 @@ def gen_op(rng, recipe, pool="all"):
             kw["dmin"], kw["dmax"] = 45.0, 270.0
         if "fmin" in kw and "fmax" in kw and kw["fmax"] <= kw["fmin"]:
             del kw["fmax"]
-        return {"m": "stats", "via": via, "stats": chosen, "kw": kw}
+        op = {"m": "stats", "via": via, "stats": chosen, "kw": kw}
+        if rng.random() < 0.3:
+            allowed = {"hs": {"tail": False}, "tp": {"smooth": False}, "fp": {"smooth": False}, "gamma": {"scaled": False}, "alpha": {"smooth": False}}
+            op["stats_kw"] = {n: allowed[n] for n in chosen if n in allowed and rng.random() < 0.7}
+            if not op["stats_kw"]:
+                op["stats_kw"] = {chosen[0]: {}}
+        if rng.random() < 0.25:
+            op["names"] = [f"{n}_x" for n in chosen]
+        return op
     if g == "split":
         kw = {}
         r = rng.random()
